@@ -97,3 +97,12 @@ package apk
 //@ func writeControl(w io.Writer, data controlData) (err error)
 //@   requires data.Info != nil
 //@   ensures [C02 C14 C15 C03] control-fields: implies(err == nil, ghostStr(w, "out") == old(ghostStr(w, "out")) + apkControl(data.Info, data.InstalledSize, data.Datahash))
+//
+//@ import "hash"
+//
+//@ func writeTgz(w io.Writer, kind tarKind, builder func(tw *tar.Writer) error, digest hash.Hash) (sum []byte, err error)
+//@   requires !ghostFlag("failed")
+//@   ensures [C04] segment-is-block-aligned: implies(err == nil, len(globStr("compressedInput")) % 512 == 0)
+//@   ensures [C04] cut-segment-has-no-end-marker: implies(err == nil && kind == tarCut, globStr("compressedInput") == globStr("tarStreamAtClose") + ufStr("zeros", globInt("tarPadAtClose")))
+//@   ensures [C04] full-segment-ends-the-archive: implies(err == nil && kind == tarFull, globStr("compressedInput") == globStr("tarStreamAtClose") + ufStr("zeros", globInt("tarPadAtClose") + 1024))
+//@   ensures [C06] loud: implies(err == nil, !ghostFlag("failed"))
